@@ -20,6 +20,7 @@ CHECKS = {
  "C05": ("relation between two runs of the library: (data set, order x fixed lists with repeats/overlap x hide subset x prune flag on rows AND columns, insertions incl. a difference present) states on non-square CAT x CAT (weighted, squared weights, numeric), CAT x MR, MR x CAT, an x6-amplified table and strands; EVERY public output found by introspection (about 120 per slice) must equal the untransformed output re-indexed by the reported orders, position-valued outputs renumbered, scalars unchanged, no vector listed twice, extents = shape", "4/C05"),
  "C10": ("for every (data set, mirrored transform config) state the tabulator emits A x B and B x A of the same respondents (CAT x CAT incl. numeric, CAT_DATE x CAT, CAT x MR / MR x CAT, MR x MR, CA both orientations); output pairs found by introspection (row_*<->column_*, rows_*<->columns_*, index lists, masks, orders) must be equal / transposed and direction-free outputs must be transposes", "4/C10"),
  "C06": ("differential over (data set, transform config) states: each partition of a 3-D cube (table = CAT with the missing category first/mid/last, MR, CA items; rows x columns = CAT/MR pairings) must equal on EVERY introspected public output the library's 2-D analysis of the respondents restricted by the model to table element k; CA-as-0th strands = univariate analysis of the sub-variable, partition sets line up cube by cube, tab-book sets, inflated numeric-summary cubes keep every value", "4/C06"),
+ "C13": ("(events of 1 or 3 identical respondents, config: subtotal column/row, alpha pair, only-larger flag, column order/hide) states on CAT x CAT (plain and squared weights), CAT x MR with and without overlap measures, MR x MR with overlaps, mean+stddev responses: t and p from the statement's formulas (unweighted or effective bases, Welch, overlap-corrected) computed from respondents; antisymmetry / symmetry / self-zero; index sets = exactly the other displayed columns below alpha (and smaller in only-larger mode), never self, secondary contains primary", "4/C13"),
  "C01": ("every multiset of <=N respondents over each schema's answer-profile alphabet is tabulated into a server payload and the real Cube/partition outputs are compared cell by cell with a respondent-loop oracle; covers all type pairings, missing-category positions, 1-D/2-D/3-D, weighted, numeric and numeric-array responses", "4/C01"),
 }
 PENDING = {}
